@@ -179,6 +179,7 @@ func vReplayOnce(i int, model map[string]int64, f func(), last bool, class, id s
 	vModel = model
 	vFailures = nil
 	vCovered = map[string]bool{}
+	vMarkCUU = false
 	vGhost = map[string][]int64{}
 	vGhostF = map[string][]float64{}
 	done := make(chan string, 1)
